@@ -298,6 +298,12 @@ def roots_of(rng, n, must=()):
     out.append(("HRef", next(sdn.get_hinstances(n.top_instance))))
     out.append(("Collection", [n.libraries[0], defs[0]]))
     out.append(("Instance", n.top_instance))
+    # an instance together with a hierarchical reference to one of its own pins (the reference standing last): both reach the same pins
+    hps = [h for h in sdn.get_hpins(n, recursive=True) if len(seq(h)) >= 4]
+    if hps:
+        hp = rng.choice(hps)
+        out.append(("Collection", [seq(hp)[-3], hp]))
+        out.append(("Collection", [hp, hp.item if hasattr(hp, "item") else seq(hp)[-1], hp]))
     return out
 
 
